@@ -226,6 +226,24 @@ func HarnessC14LangLen(idx, L int) {
 func HarnessC09Desc(idx, level int) {
 	d := vModelDescriptor(idx, level)
 	d.Length = vnondetU8()
+	// flags that end a byte are case-split: the writer flushes - and feeds the CRC callback - inside the branch, and a
+	// merged CRC state is not syntactically equal to the one-pass CRC (DESIGN.md, pitfalls)
+	split := func(p *bool) { *p = vrange(0, 1) == 1 }
+	if x := d.EnhancedAC3; x != nil {
+		split(&x.HasSubStream3)
+		split(&x.HasSubStream2)
+		split(&x.HasSubStream1)
+		split(&x.MixInfoExists)
+		split(&x.HasASVC)
+		split(&x.HasMainID)
+		split(&x.HasBSID)
+		split(&x.HasComponentType)
+	}
+	if x := d.LocalTimeOffset; x != nil {
+		for _, it := range x.Items {
+			split(&it.LocalTimeOffsetPolarity)
+		}
+	}
 	pmt := &PMTData{ProgramNumber: 1, PCRPID: 0x100, ElementaryStreams: []*PMTElementaryStream{{StreamType: StreamTypeAACAudio, ElementaryPID: 0x100, ElementaryStreamDescriptors: []*Descriptor{d}}}}
 	sec := &PSISection{Header: &PSISectionHeader{TableID: PSITableIDPMT, SectionSyntaxIndicator: true},
 		Syntax: &PSISectionSyntax{Header: &PSISectionSyntaxHeader{TableIDExtension: 1, CurrentNextIndicator: true}, Data: &PSISectionSyntaxData{PMT: pmt}}}
